@@ -61,9 +61,12 @@ typedef struct
   bool sync_held_at_connect; bool sync_held_at_close;
 } iora_engine;
 
+#ifndef IORA_IMPL_EXTRA
+#define IORA_IMPL_EXTRA
+#endif
 typedef struct
 {
-  struct { size_t maxSyncReceiveBuffer; bool allowReadModeSwitch; uint8_t protocol; } config;
+  struct { size_t maxSyncReceiveBuffer; bool allowReadModeSwitch; uint8_t protocol; size_t syncBufferGcThreshold; } config;
   iora_engine *engine;
   iora_mutex callbackMutex; iora_fn onConnectCb; iora_fn onDataCb; iora_fn onCloseCb;
   iora_mutex syncMutex;
@@ -71,6 +74,7 @@ typedef struct
   iora_rmmap readModes;
   iora_rbmap receiveBuffers;
   bool shuttingDown; size_t activeReceives; size_t activeFlushes; size_t activeConnects; iora_cv teardownCv;
+  IORA_IMPL_EXTRA      /* further members of Impl a unit needs (observer maps, user data): defined by a unit-local header included before this one */
 } Impl;
 
 
